@@ -164,8 +164,9 @@ def check_case(ctx, case):
         # routes that take literally the same path must agree bit for bit
         for group in (("partial_late", "partial_late_name", "diff_late_component_at", "diff_late_component_then_at", "derivative_late", "derivative_late_number"),
                       ("located", "located_name", "diff_late_at_component"),
-                      ("partial_early", "partial_early_name", "partial_late_after_expr", "derivative_early", "derivative_early_number"),
-                      ("diff_early_component_at", "diff_early_component_then_at", "diff_early_at_component")):
+                      ("partial_early", "partial_early_name", "partial_late_after_expr", "partial_early_after_expr", "component_late_after_expr",
+                       "derivative_early", "derivative_early_number", "derivative_late_after_expr", "derivative_early_after_expr", "derivative_late_after_expr_number"),
+                      ("diff_early_component_at", "diff_early_component_then_at", "diff_early_at_component", "component_early_after_expr")):
             vals = {rn: outs[rn].numbits() for rn in group if rn in outs}
             if len(set(vals.values())) > 1:
                 ctx.violation("same_path_routes_differ", f"{what}: routes that differ only in spelling returned different numbers: {vals}")
